@@ -36,6 +36,11 @@ CAND = {
  "lstmint": ["LST2", "M1"], "solpool": ["SP2.stake", "SP3"], "stakepool": ["SP2", "stranger"],
  "rec3": ["A2.rec"],
  "bankf": ["X1", "B1"],                      # another group's bank; a bank of the group that is not flagged tokenless-complete
+ # Kamino integration (stand-in venue): another venue bank of the group / a non-venue bank, and their accounts
+ "kbank": ["KB2", "B1"], "klva": ["KB2.liq_auth"], "kvliq": ["KB2.liq", "B1.liq"], "kobl": ["KB2.obl"], "kres": ["KR2"],
+ "kbank3": ["KB1", "B1"], "klva3": ["KB1.liq_auth"], "kvliq3": ["KB1.liq"], "kobl3": ["KB1.obl"], "kres3": ["KR1"], "kmarket": ["KM2"],
+ "kprog": ["prog.unknown"], "fprog": ["prog.unknown"], "sysrent": ["sysvar.ixs"],
+ "kmint": ["M2"], "kres_bad": ["B1", "KB1.obl"], "kobl_pda": ["KB1.obl"],
  "signer": [], "free": [], "payer": [], "new": [],
 }
 
@@ -106,6 +111,30 @@ OPS = {
                            ("liquidity_vault_authority","free"),("liquidity_vault","free"),("insurance_vault_authority","free"),("insurance_vault","free"),("fee_vault_authority","free"),("fee_vault","free"),("token_program","tprog"),("system_program","sprog"))),
  "purge": dict(role="risk_admin", base={"op":"purge","acct":"A5","bank":"B8"},
                    slots=S(("group","group"),("marginfi_account","acct_g"),("risk_admin","signer"),("bank","bankf"))),
+ # ---- Kamino integration instructions (against the stand-in venue)
+ "kamino_deposit": dict(role="authority", base={"op":"kamino_deposit","acct":"A1","bank":"KB1","amount":10},
+                   slots=S(("group","group"),("marginfi_account","acct"),("authority","signer"),("bank","kbank"),("signer_token_account","free"),("liquidity_vault_authority","klva"),
+                           ("liquidity_vault","kvliq"),("integration_acc_2","kobl"),("lending_market","free"),("lending_market_authority","free"),("integration_acc_1","kres"),("mint","mint"),
+                           ("reserve_liquidity_supply","free"),("reserve_collateral_mint","free"),("reserve_destination_deposit_collateral","free"),("obligation_farm_user_state","free"),
+                           ("reserve_farm_state","free"),("kamino_program","kprog"),("farms_program","fprog"),("collateral_token_program","tprog"),("liquidity_token_program","tprog"),
+                           ("instruction_sysvar_account","sysixs"))),
+ "kamino_withdraw": dict(role="authority", base={"op":"kamino_withdraw","acct":"A1","bank":"KB1","amount":5},
+                   slots=S(("group","group"),("marginfi_account","acct"),("authority","signer"),("bank","kbank"),("destination_token_account","free"),("liquidity_vault_authority","klva"),
+                           ("liquidity_vault","kvliq"),("integration_acc_2","kobl"),("lending_market","free"),("lending_market_authority","free"),("integration_acc_1","kres"),("reserve_liquidity_mint","mint"),
+                           ("reserve_liquidity_supply","free"),("reserve_collateral_mint","free"),("reserve_source_collateral","free"),("obligation_farm_user_state","free"),
+                           ("reserve_farm_state","free"),("kamino_program","kprog"),("farms_program","fprog"),("collateral_token_program","tprog"),("liquidity_token_program","tprog"),
+                           ("instruction_sysvar_account","sysixs"))),
+ "kamino_init_obligation": dict(role="anyone", base={"op":"kamino_init_obligation","bank":"KB3","amount":100},
+                   slots=S(("fee_payer","signer"),("bank","kbank3"),("signer_token_account","free"),("liquidity_vault_authority","klva3"),("liquidity_vault","kvliq3"),("integration_acc_2","kobl3"),
+                           ("user_metadata","free"),("lending_market","kmarket"),("lending_market_authority","free"),("integration_acc_1","kres3"),("mint","mint"),("reserve_liquidity_supply","free"),
+                           ("reserve_collateral_mint","free"),("reserve_destination_deposit_collateral","free"),("pyth_oracle","free"),("switchboard_price_oracle","free"),
+                           ("switchboard_twap_oracle","free"),("scope_prices","free"),("obligation_farm_user_state","free"),("reserve_farm_state","free"),("kamino_program","kprog"),
+                           ("farms_program","fprog"),("collateral_token_program","tprog"),("liquidity_token_program","tprog"),("instruction_sysvar_account","sysixs"),("rent","sysrent"),
+                           ("system_program","sprog"))),
+ "add_bank_kamino": dict(role="admin", base={"op":"add_bank_kamino","group":"G1","bank":"KB9","reserve":"KR1","oracle":"O1","seed":99},
+                   slots=S(("group","group"),("admin","signer"),("fee_payer","payer"),("bank_mint","kmint"),("bank","new"),("integration_acc_1","kres_bad"),("integration_acc_2","kobl_pda"),
+                           ("liquidity_vault_authority","free"),("liquidity_vault","free"),("insurance_vault_authority","free"),("insurance_vault","free"),("fee_vault_authority","free"),("fee_vault","free"),
+                           ("token_program","tprog"),("system_program","sprog"))),
  # ---- permissionless housekeeping
  "init_liq_record": dict(role="anyone", base={"op":"init_liq_record","acct":"A5"},
                    slots=S(("marginfi_account","free"),("fee_payer","signer"),("liquidation_record","new"),("system_program","sprog"))),
